@@ -173,6 +173,8 @@ func GenProgram(t *rapid.T, o GenOpts) *Program {
 	}
 	nlds, exited := 0, false
 	usedStore := map[[2]int]bool{}
+	extraRegs := 0
+	regsLeft := func() int { return maxValues - (nv - NumBuiltin) - extraRegs }
 	wgItems := p.Geo.WGItems()
 	kinds := []string{"const", "bin", "bin", "bin", "sel", "load", "load", "sload", "loop", "if", "ifload", "ifstore", "store", "store"}
 	if wantLDS {
@@ -187,7 +189,7 @@ func GenProgram(t *rapid.T, o GenOpts) *Program {
 			kind = "lds"
 		}
 		op := Op{Kind: kind}
-		if producesValue(kind) && nv-NumBuiltin >= maxValues {
+		if producesValue(kind) && nv-NumBuiltin+extraRegs >= maxValues {
 			op.Kind, kind = "store", "store"
 		}
 		drawA := func() {
@@ -229,6 +231,11 @@ func GenProgram(t *rapid.T, o GenOpts) *Program {
 			op.A = ref("a")
 			op.K = rapid.IntRange(0, 1).Draw(t, "k")
 			op.Wait = rapid.SampledFrom([]int{0, 0, 0, 1, 2}).Draw(t, "wait")
+			if rapid.IntRange(0, 2).Draw(t, "wide") == 0 && regsLeft() >= 8 {
+				op.N = rapid.SampledFrom([]int{2, 4}).Draw(t, "loadwidth")
+				op.Imm = uint32(rapid.IntRange(0, 3).Draw(t, "loadoff"))
+				extraRegs += op.N - 1
+			}
 		case "sload":
 			op.K = rapid.IntRange(0, 1).Draw(t, "k")
 			op.N = rapid.SampledFrom([]int{1, 2, 4, 8}).Draw(t, "swidth")
@@ -306,7 +313,7 @@ func GenProgram(t *rapid.T, o GenOpts) *Program {
 	}
 	// declared register counts: padded independently, within what one compute unit can hold
 	if rapid.Bool().Draw(t, "padregs") {
-		used := vFirstValue + (nv - NumBuiltin) + 4
+		used := vFirstValue + (nv - NumBuiltin) + extraRegs + 4
 		room := 248/perSIMD - used
 		if room > 0 {
 			p.PadVGPR = rapid.IntRange(0, room).Draw(t, "padvgpr")
